@@ -45,8 +45,9 @@ SITE_EXEMPT = {
     ("dask/bytes/core.py", "read_bytes"): {"sample": "sample is returned next to the delayed blocks, not part of them"},
     ("dask/delayed.py", "call_function"): {"func": "identified by func_token, checked by C15"},
     ("dask/graph_manipulation.py", "_bind_one"): {"blocker": "C16 (not applicable): keys are cloned with seed", "omit_keys": "C16", "omit_layers": "C16", "seed": "C16"},
-    ("dask/array/creation.py", "eye"): {"chunks": "the token uses vchunks[0], the uniform block size that is actually used"},
-    ("dask/array/percentile.py", "percentile"): {"kwargs": "only the deprecated `interpolation` keyword, folded into `method`; anything else raises"},
+    ("dask/array/creation.py", "eye"): {"chunks": "the token uses the normalized vchunks/hchunks that are actually used"},
+    ("dask/array/percentile.py", "percentile"): {"kwargs": "only the deprecated `interpolation` keyword, folded into `method`; anything else raises", "internal_method": "selects the name PREFIX (percentile_tdigest_chunk- vs percentile_chunk-), so the keys differ"},
+    ("dask/array/linalg.py", "tsqr"): {"_max_vchunk_size": "private knob of the recursive implementation (tests only): qr/svd/sfqr never pass it"},
     ("dask/array/core.py", "store"): {"kwargs": "scheduler options: forwarded to dask.compute/persist, never into the store tasks"},
     ("dask/array/random.py", "_wrap_func"): {"extra_chunks": "derived at every call site from a distribution parameter that is in args (len(pvals), len(colors), mean.shape)", "rng": "enters through tokenize(bitgens): the spawned bit generators of rng (C28)"},
 }
@@ -79,6 +80,24 @@ def check(ctx):
         names = {n.id for n in ast.walk(v) if isinstance(n, ast.Name)}
         ok = eqv(v.body, "outname.split('-')[-1]") and eqv(v.test, "'-' in outname") and "inname" not in names and eqv(v.orelse, "tokenize(outname, chunks, index, axis)")
     ctx.ob("N1.take.split-token", tkf, "token of the shuffle-split/sorter/taker tasks = the output name's token (or tokenize(outname, chunks, index, axis))", ok, "" if ok else "two different fancy indexings of one array emit identically named helper tasks: computed together one reads the other's selection")
+    # ---------------- a full output name is never a constant (blockwise/map_blocks take `name=` as the COMPLETE name)
+    n_nm = 0
+    for rel in ctx.model.package_files("dask"):
+        if "/tests/" in rel or not rel.startswith(("dask/array/", "dask/bag/")):
+            continue
+        src = ctx.model.read(rel)
+        if "name=" not in src:
+            continue
+        for c in ast.walk(ctx.model.module(rel).tree):
+            if isinstance(c, ast.Call) and (call_name(c) or "").split(".")[-1] in ("blockwise", "map_blocks", "map_overlap", "elemwise", "core_blockwise"):
+                nm = kwarg(c, "name")
+                if nm is None:
+                    continue
+                n_nm += 1
+                const_ = isinstance(nm, ast.Constant) and isinstance(nm.value, str)
+                ctx.ob("N1.no-constant-name", c, f"{rel}: {call_name(c)}(..., name={unparse(nm)[:50]}) is not a constant", not const_, "" if not const_ else "every result of this routine has the same keys: two of them in one graph overwrite each other (use token= for a name prefix)", nontrivial=False)
+    ctx.count("explicit_output_names", n_nm)
+    ctx.floor("explicit_output_names", 4)
 
 
 def key_inputs(ctx, only=None, floor=80, prefix=None):
